@@ -74,7 +74,9 @@ def main():
         'checks': checks,
         'not_applicable': na,
         'notes': 'All checks import falcon from the .py sources of /repo (stale cythonized .so files next to them are '
-                 'ignored). Exit 0 = held, 1 = VIOLATION line printed, 2 = machinery failure.',
+                 'ignored). Exit 0 = held, 1 = VIOLATION line printed, 2 = machinery failure. Additional non-property '
+                 'check (growth path, DESIGN.md 9.8): ./check G01 judges every request falcon\'s own test suite makes '
+                 'against the C02/C05/C15 specifications.',
     }
     with open(os.path.join(VERIF, 'MANIFEST.json'), 'w') as f:
         json.dump(man, f, indent=1)
